@@ -114,32 +114,44 @@ def blackbox(v, wd, inputs, rnd, thorough):
     sent = 0
     lock = threading.Lock()
 
-    def probe(tag):
-        ok = True
-        why = ""
+    def probe_once(tmo):
+        """every listener serves a fresh tunnel and the API answers; returns (ok, why)"""
         for proto in ("http", "socks5", "socks4"):
+            est = False
+            why = ""
             try:
-                c, rep = topo.open(proto, "direct", T, timeout=5.0)
+                while not origin.q.empty():
+                    origin.q.get().close()
+                c, rep = topo.open(proto, "direct", T, timeout=tmo)
                 est = bb.established(rep)
                 if est:
-                    o = origin.accept(3.0)
+                    o = origin.accept(tmo)
                     c.send(b"ping")
-                    est = o is not None and o.recv_some(timeout=3.0, want=4) >= 4
+                    est = o is not None and o.recv_some(timeout=tmo, want=4) >= 4
                     if o:
                         o.close()
                 c.close()
             except OSError as e:
-                est = False
                 why = repr(e)
             if not est:
-                ok = False
-                why = why or ("%s listener did not serve a fresh connection" % proto)
+                return False, why or ("%s listener did not serve a fresh connection" % proto)
         try:
-            st, body = topo.p1.api(topo.api1, "/status", timeout=5.0)
+            st, body = topo.p1.api(topo.api1, "/status", timeout=tmo)
             if st != 200:
-                ok, why = False, "api status %s" % st
+                return False, "api status %s" % st
         except OSError as e:
-            ok, why = False, "api: %r" % e
+            return False, "api: %r" % e
+        return True, ""
+
+    def probe(tag):
+        # a wedged proxy stays wedged: a probe that fails is repeated with more patience before it counts
+        # (the machine may be busy; a slow answer is not a wedge)
+        ok, why = False, ""
+        for tmo in (5.0, 10.0, 20.0):
+            ok, why = probe_once(tmo)
+            if ok or not topo.p1.alive():
+                break
+            time.sleep(1.0)
         if not ok or not topo.p1.alive():
             v.report("faults/process/%s" % tag, {"why": why, "alive": topo.p1.alive(), "panic": str(topo.p1.panicked())[:300]}, {"after": tag})
         return ok
